@@ -19,6 +19,7 @@ import (
 	"encoding/json"
 	"flag"
 	"fmt"
+	"net"
 	"os"
 	"os/exec"
 	"path/filepath"
@@ -65,7 +66,25 @@ type result struct {
 	lines []map[string]interface{}
 }
 
-func runScenario(self, work string, raw []byte, deadline time.Duration) result {
+// controlPort picks the control port of scenario idx: unique within this run, offset by the
+// supervisor's pid so that concurrent runs do not meet, and free at the time of the probe.
+func controlPort(idx int) int {
+	p := 20000 + (os.Getpid()%15)*2500 + idx%2500
+	for k := 0; k < 10; k++ {
+		l, err := net.Listen("tcp", fmt.Sprintf("127.0.0.1:%d", p))
+		if err == nil {
+			l.Close()
+			return p
+		}
+		p += 2503
+		if p > 60000 {
+			p -= 38000
+		}
+	}
+	return p
+}
+
+func runScenario(self, work string, raw []byte, deadline time.Duration, idx int) result {
 	var sc Scenario
 	if err := json.Unmarshal(raw, &sc); err != nil {
 		return result{id: -1}
@@ -77,7 +96,7 @@ func runScenario(self, work string, raw []byte, deadline time.Duration) result {
 	os.WriteFile(scnPath, raw, 0644)
 	tag := filepath.Base(dir)
 
-	cmd := exec.Command(self, "-mode", "one", "-scn", scnPath, "-dir", dir)
+	cmd := exec.Command(self, "-mode", "one", "-scn", scnPath, "-dir", dir, "-port", fmt.Sprint(controlPort(idx)))
 	var stderr bytes.Buffer
 	cmd.Stderr = &stderr
 	cmd.Stdout = &stderr
@@ -205,7 +224,7 @@ func supervise(scnFile, traceFile, work string, par int, deadline time.Duration)
 		go func(i int) {
 			defer wg.Done()
 			defer func() { <-sem }()
-			results[i] = runScenario(self, work, raws[i], deadline)
+			results[i] = runScenario(self, work, raws[i], deadline, i)
 		}(i)
 	}
 	wg.Wait()
@@ -248,7 +267,7 @@ func main() {
 	flag.Parse()
 	switch *mode {
 	case "one":
-		os.Exit(runOne(*scn, *dir))
+		os.Exit(runOne(*scn, *dir, *port))
 	case "fakeocc":
 		os.Exit(runFakeOcc(*port, *logf, *beh, *fifo))
 	default:
